@@ -157,20 +157,30 @@ def handle_quic_packet(packet: Packet, keylog, quic_sessions: list[QuicSession],
             case _:
                 quic_version = QuicVersion.UNKNOWN
 
+    # first try matching connection IDs: over all sessions the longest matching ID wins (a short header does not
+    # tell how long its connection ID is, so one session's ID may be a prefix of another's), matching addresses
+    # break ties
+    candidate = None
     for session in quic_sessions:
-        # first try matching connection IDs
+        addr_match = session.matches_session_dgram(packet.ip_src, packet.ip_dst, packet.sport, packet.dport)
         if header_type == QuicHeaderType.LONG:
             # a zero-length connection id identifies nothing, such packets are matched by address below
             if len(dcid) > 0 and (dcid in session.client_cids or dcid in session.server_cids):
-                session.handle_packet(packet, dcid, quic_version)
-                return
+                if candidate is None or (len(dcid), addr_match) > candidate[0]:
+                    candidate = ((len(dcid), addr_match), session, dcid)
         else:
             # match by checking all known cid lengths for session, longest first
             for cid in sorted(session.client_cids | session.server_cids, key=len, reverse=True):
                 if len(cid) > 0 and cid == packet_payload[1:1 + len(cid)]:
-                    session.handle_packet(packet, cid, quic_version)
-                    return
+                    if candidate is None or (len(cid), addr_match) > candidate[0]:
+                        candidate = ((len(cid), addr_match), session, cid)
+                    break
 
+    if candidate is not None:
+        candidate[1].handle_packet(packet, candidate[2], quic_version)
+        return
+
+    for session in quic_sessions:
         # check matching ip address and port for zero length cids
         if session.matches_session_dgram(packet.ip_src, packet.ip_dst, packet.sport, packet.dport):
             session.handle_packet(packet, dcid, quic_version)
